@@ -143,11 +143,27 @@ def small_universe_sets(max_size):
             yield list(comb)
 
 
+def same_rgba_case(rng, fmt):
+    """one RGBA in several palette slots: used plain, under two explicit indices, and `var(--colorN, black)` above an unfilled (black) gap"""
+    c = rng.choice(["#FF0000", "#00AA00", "#0000FF"])
+    i, j = rng.sample([1, 2, 3, 4, 5], 2)
+    k = max(i, j) + rng.choice([2, 3])
+    rect = lambda n: f"M{10 + 14 * n},10 L{22 + 14 * n},10 L{22 + 14 * n},{40 + 5 * n} L{10 + 14 * n},{40 + 5 * n} Z"
+    fills = [c, f"var(--color{i}, {c})", f"var(--color{j}, {c})", f"var(--color{k}, #000000)", "#222222"]
+    rng.shuffle(fills)
+    svg = ('<svg xmlns="http://www.w3.org/2000/svg" viewBox="0 0 100 100">'
+           + "".join(f'<path d="{rect(n)}" fill="{f}"/>' for n, f in enumerate(fills)) + "</svg>")
+    cfg = {"color_format": fmt, "upem": 1024, "ascender": 950, "descender": -250, "width": 1275, "reuse_tolerance": -1, "keep_glyph_names": True}
+    return {"id": f"same-rgba:{fmt}:{rng.getrandbits(32)}", "seed": 0, "fmt": fmt, "svgs": [svg], "config": cfg, "codepoints": [[0xE000]]}
+
+
 def suite_fonts(ctx, res, n):
     """CPAL + palette indices of real COLRv0/v1 builds (K-pipe)."""
     from harness import fontgen
 
-    for case in fontgen.gen_cases(ctx.rng, n, formats=["glyf_colr_1", "glyf_colr_0"], want_palette_indices=True):
+    cases = list(fontgen.gen_cases(ctx.rng, n, formats=["glyf_colr_1", "glyf_colr_0"], want_palette_indices=True))
+    cases += [same_rgba_case(ctx.rng, ["glyf_colr_1", "glyf_colr_0"][i % 2]) for i in range(max(4, n // 6))]
+    for case in cases:
         out = fontgen.build(case)
         res.count(key=("font", stable_hash(case["id"])), nontrivial=True)
         if "err" in out:
